@@ -127,6 +127,16 @@ def replay_case(case, report):
                     report('class', key,
                            '%s.%s(%g) on %s -> %s; spec expects error (%s)'
                            % (label, GETTERS[ev['p']], T, desc, o, x['cls']))
+                else:
+                    # the same temperature handed over as a one-element array is as far outside
+                    # the range: an answer without any signal is the unsignalled value C06 forbids
+                    k4, v4, w4 = call(getattr(obj, GETTERS[ev['p']]), np.array([float(T)]))
+                    n += 1
+                    if k4 == 'value' and not w4:
+                        report('class', key + ':array',
+                               '%s.%s(array([%g])) on %s -> %r without error or warning; the scalar %g '
+                               'raises %s (outside the valid range)'
+                               % (label, GETTERS[ev['p']], T, desc, v4, T, o['cls']))
                 continue
             if o['k'] != x['k']:
                 report('class', key, '%s.%s(%g) on %s -> %s; spec expects %s'
